@@ -35,6 +35,7 @@ import asyncio
 import concurrent.futures
 import enum
 import math
+import threading
 
 from . import env as E
 from .kernel import HarnessError
@@ -338,6 +339,12 @@ DEFAULT_CFG = {
     "ok_awaitable": False,       # async: a successful attempt returns an awaitable *object* (a handle)          # strategies are objects exposing record_success / record_failure
     "loop": False,               # async entry points run as Tasks on the virtual event loop
     "attempt_timeout": None,     # ticks: attempt_timeout_s (sync: owned executor; async: needs loop)
+    "real_executor": False,      # sync attempt timeout through whatever REAL threads / executors /
+                                 # queues the library uses: an overrunning attempt really blocks
+                                 # (released by events, never by wall time) and completes late
+    "late_menu": ["ok"],         # what a released, timed-out attempt finally does (free choice)
+    "release_menu": ["end", "sleep", "nextop"],   # when it is released: after the call ended, during
+                                 # the backoff sleep that follows, or once the next attempt has started
     "nest": None,                # {"site": "aend"|"metric"|"strategy", "entry": ..., "script": [...]}:
                                  # at that callback a whole nested call on the SAME policy object may
                                  # run (choice point, 1 deviation) - single-threaded overlap of calls
@@ -398,8 +405,13 @@ class World:
         if cfg["loop"]:
             from .vloop import VLoop
             self.loop = VLoop(self.clock)
+        self._pending = []
+        self.inconclusive = False
         if cfg["attempt_timeout"] is not None:
-            _install_fake_executor(self)
+            if cfg["real_executor"]:
+                _install_real_executor()
+            else:
+                _install_fake_executor(self)
         self._build_shared()
 
     # -- registry ------------------------------------------------------------------------
@@ -557,6 +569,11 @@ class World:
     def classifier(self, exc):
         spec = getattr(exc, "spec", None)
         i = self.ident(exc)
+        if self.cfg["real_executor"] and i == "foreign:TimeoutError":
+            ops = [r for r in self.trace if r[0] == "op"]
+            if not ops or ops[-1][2] != "cut":
+                # real time ran away (a loaded machine): the attempt did not overrun in the model
+                self.inconclusive = True
         if spec is None:
             klass, ra = (self.cfg["timeout_class"] if isinstance(exc, TimeoutError) else "U"), None
         else:
@@ -775,6 +792,8 @@ class World:
     def _do_sleep(self, which, s):
         if self._bs_running:
             self.trace.append(("overlap", "sleeper called while before_sleep is still running"))
+        if self._pending:
+            self._release("sleep")
         t0 = self.rel()
         self.fault("sleeper")
         over = self.cfg["overshoot"]
@@ -1086,8 +1105,66 @@ class World:
         _raise_here(exc)
 
     def op_sync(self):
+        if self.cfg["real_executor"]:
+            return self._op_real()
         n, label, t0, t1 = self._op_body()
         return self._op_finish(n, label, t0, t1)
+
+    # -- real threads: the sync attempt timeout as the library really implements it ---------
+    def _op_real(self):
+        """Runs on whatever thread the library runs the attempt on.  Every hand-off is sequenced
+        by events: while this stub works the caller's thread is blocked waiting for the attempt
+        (or for the stub's `done` event), so trace and chooser are never touched concurrently."""
+        self._release("nextop")
+        n, label, t0, d = self._op_body(advance=False)
+        to = self.cfg["attempt_timeout"]
+        if to is None or d <= to:
+            E.advance(d * TAU)
+            return self._op_finish(n, label, t0, self.rel())
+        cfg = self.cfg
+        late = self.ch.pick("late", cfg["late_menu"], True)
+        point = self.ch.pick("release", cfg["release_menu"], True)
+        E.advance(to * TAU)          # the caller gives up after exactly attempt_timeout_s
+        self.trace.append(("op", n, "cut", t0, self.rel(), None))
+        rel_ev, done_ev = threading.Event(), threading.Event()
+        self._pending.append([point, rel_ev, done_ev, threading.current_thread()])
+        if not rel_ev.wait(20.0):    # real seconds: only reached when the harness lost the thread
+            self.inconclusive = True
+        try:
+            return self._late_finish(n, late)
+        finally:
+            done_ev.set()
+
+    def _late_finish(self, n, late):
+        if late == "ok":
+            v = Val(n)
+            self.trace.append(("late", n, late, self.reg(v)))
+            return v
+        kind, _, k = late.partition(":")
+        if kind == "r":
+            v = Val(n, fail=k)
+            self.trace.append(("late", n, late, self.reg(v)))
+            return v
+        exc = OpError(f"late{n}:{k}")
+        exc.spec = (k, None)
+        code = STATUS_FOR.get(k)
+        if code is not None:
+            exc.status = code
+        self.trace.append(("late", n, late, self.reg(exc)))
+        _raise_here(exc)
+
+    def _release(self, point):
+        """Let the timed-out attempts that wait for `point` finish, and wait until their outcome
+        has been handed to whatever the library left listening."""
+        for p in list(self._pending):
+            if p[0] == point or point == "end":
+                self._pending.remove(p)
+                p[1].set()
+                if not p[2].wait(20.0):
+                    self.inconclusive = True
+                if p[3] is not threading.current_thread():
+                    p[3].join(0.05)   # an executor worker exits after delivering; a long-lived
+                                      # helper thread gets 50 ms to deliver
 
     async def op_async(self):
         self._in_async_op = True
@@ -1366,9 +1443,13 @@ class World:
                     raise r[1]
                 r = r[1]
         except BaseException as exc:  # noqa: BLE001 - everything is an observation here
+            if self._pending:
+                self._release("end")
             if isinstance(exc, HarnessError):
                 raise
             return self._end_raise(exc)
+        if self._pending:
+            self._release("end")
         if execute:
             return self._end_outcome(r)
         self.trace.append(("end", "ret", self.ident(r)))
@@ -1605,6 +1686,12 @@ def _install_fake_executor(world):
     _FakeExecutor.world = world
     if hasattr(sc, "ThreadPoolExecutor"):
         sc.ThreadPoolExecutor = _FakeExecutor
+
+
+def _install_real_executor():
+    import redress.policy.runner.sync_core as sc
+    if getattr(sc, "ThreadPoolExecutor", None) is _FakeExecutor:
+        sc.ThreadPoolExecutor = concurrent.futures.ThreadPoolExecutor
 
 
 def run_single(cfg, entry, ch):
